@@ -19,6 +19,11 @@ TEXTS = {
   "note": TB + "; Document snapshots (node table, cemetery) are not modelled yet; encoding/json itself is exercised, not modelled.",
   "technique": "Coq proof (round trip, congruence, canonical sorting) + in-Coq comparison of real marshalled snapshots + side-by-side continuation oracle",
  },
+ "C11": {
+  "text": "Theorems over a system whose steps are, in any order, requests served by the modelled server (any push-pull, client or collection request) and single runs of UpdateSnapshot with the datatype document some earlier handler held (any staleness relative to later pushes, any order of updates): in every reachable state every stored snapshot belongs to a datatype, has a version within its log and restores to the state obtained by replaying log operations 1..version; every user document is the JSON view of the replay of operations 1..(its recorded version) of the datatype named by its collection and key; the recorded version of a user document never decreases over any continuation; rebuilding from the latest snapshot plus the later operations returns the replay of the whole log. Proved generically in the kernel and instantiated for counter, list (exact equality) and map (same entry under every key, same Size, hence the same JSON view). On every run the -_-Snapshots documents and the user-collection documents of the in-memory MongoDB are compared with the model's after every exchange (including storage faults), and an oracle replays operations 1..v with the real datatype code for every new snapshot and every changed user document.",
+  "note": TB + "; snapshot updates of one datatype run one at a time (their TryLock: a racing update is skipped, which the model expresses as the step not happening); Document snapshots are covered by the replay oracle only; a storage fault inside the snapshot update is exercised (oracle still applies) but the model then adopts the observed store.",
+  "technique": "Coq proof (invariant over all interleavings of requests and stale snapshot updates) + in-Coq comparison of the stored snapshots and user documents + replay oracle in Go",
+ },
  "C03": {
   "text": "Theorems: a call failing validation, or rejected by the datatype, returns an error and leaves the entire datatype (readable state, next id, pending operations, checkpoint, rollback point) exactly as it was — generic in the datatype; the counter is a wrapped 32-bit integer; map Put/Remove act on the key and return the old value like a plain map (Remove of an absent key is an error that changes nothing); list Insert/Delete/Update never dereference nil, transform the sequence of readable values exactly like the slice operation, return what it returns, and keep Size equal to the number of readable values. On every run one real replica is driven with valid and invalid calls and reads and compared call by call with the plain Go structure AND with the model.",
   "note": TB + "; Document (JSON tree, child documents, null values, wrong container kind) is not modelled yet — its C03 part is not claimed.",
